@@ -104,19 +104,25 @@ Inductive wcond :=
 | CIsCoro (c : callee) | CNot (c : wcond) | CTrue | CFalse.
 Inductive rk_action := RkRenamed | RkSame | RkDrop.
 
+(* what an f-string of a wrapper evaluates, left to right, before the message exists: attribute reads on the
+   callee (func.__name__ / func.__qualname__, missing on functools.partial and callable objects) and the text of
+   values (repr / str of every positional argument, of every keyword value, of a local such as the result).
+   FOwn: something of the wrapper's own that cannot fail (datetime.now(), wrapper.num_calls, a timedelta) *)
+Inductive fitem := FOwn | FName (c : callee) | FVal (e : wexpr) | FArgs | FKwargs.
+
 Inductive wstmt :=
 | WSkip
 | WSeq (a b : wstmt)
-| WPrint
+| WPrint (fmt : list fitem)
 | WCount (k : Z)                                                   (* <wrapper>.num_calls += k *)
-| WWarn (cat : wcat)                                               (* _raise_warning(msg=..., category=cat) *)
+| WWarn (cat : wcat) (fmt : list fitem)                            (* _raise_warning(msg=..., category=cat) *)
 | WPure (x : nat)                                                  (* x = <effect free value of the wrapper's own> *)
 | WAssign (x : nat) (e : wexpr)
 | WCall (tgt : option nat) (c : callee) (a : argspec) (k : kwspec) (awaited : bool)
 | WAwait (tgt : option nat) (e : wexpr)
 | WAssertKw (a : argspec) (k : kwspec)                             (* DecoratedFunction; FunctionCall; assert_uses_kwargs *)
 | WIf (c : wcond) (th el : wstmt)
-| WRaise (cls : exn)
+| WRaise (cls : exn) (fmt : list fitem)
 | WReraise
 | WReturn (e : wexpr)
 | WRenameKw (tgt : nat) (listed unlisted : rk_action)              (* the loop of rename_kwargs *)
@@ -125,7 +131,8 @@ Inductive wstmt :=
 
 (* ---- decoration ---------------------------------------------------------------------- *)
 Inductive dcond := DNameInDir (who : string) | DNot (c : dcond).
-Inductive dstmt := DGuardEnabled | DIfRaise (c : dcond) (cls : exn) | DOpaque.
+Inductive dstmt := DGuardEnabled | DIfRaise (c : dcond) (cls : exn) | DOpaque
+               | DReadName.      (* name = func.__name__ at decoration time *)
 Inductive vsel := VSync | VAsync | VFunc.
 Inductive dispatch := DispAlways (v : vsel) | DispOnCoro (t f : vsel) | DispThrough (via : string) (v : vsel).
 
@@ -150,6 +157,8 @@ Inductive flow :=
 | FRet (v : val) (e : env)
 | FExc (cls : exn) (x : xid) (e : env)
 | FUnmodelled.
+
+Inductive fres := FmOk | FmExc (cls : exn) (x : xid) | FmUnmodelled.
 
 Definition UnboundLocalErrorC : exn := [0; 10; 0].
 
@@ -185,7 +194,8 @@ Section Exec.
   Variable Sigma : Type.
 
   Definition csem := args -> kwargs -> st Sigma -> res * st Sigma.
-  Record cdesc := { c_iscoro : bool;      (* inspect.iscoroutinefunction(callee) *)
+  Record cdesc := { c_named : bool;       (* it has __name__ and __qualname__ and is a function object (not a partial / callable object) *)
+                    c_iscoro : bool;      (* inspect.iscoroutinefunction(callee) *)
                     c_mode : bool;        (* at bottom a coroutine function: whoever uses it like the twin awaits the result *)
                     c_call : csem;        (* calling it *)
                     c_resume : csem }.    (* awaiting the coroutine object it handed back for these arguments *)
@@ -199,6 +209,7 @@ Section Exec.
     cx_assert_kw : args -> kwargs -> option exn;       (* DecoratedFunction(...); FunctionCall(...).assert_uses_kwargs() *)
     cx_warn_prog : list fop;                           (* body of _raise_warning *)
     cx_self : nat;                                     (* identity of the wrapper object created by this decoration *)
+    cx_repr : val -> st Sigma -> res * st Sigma;       (* repr(v) / str(v): a callee effect - it may raise, print, re-enter *)
   }.
 
   Variable cx : ctx.
@@ -269,6 +280,47 @@ Section Exec.
 
   Definition set_ws (s : st Sigma) (w : wst) : st Sigma := Build_st (cs s) w.
 
+  (* evaluating the fields of an f-string: in order, stops at the first failure *)
+  Fixpoint fmt_vals (l : list val) (s : st Sigma) : fres * st Sigma :=
+    match l with
+    | [] => (FmOk, s)
+    | v :: l' =>
+      match cx_repr cx v s with
+      | (ROk _, s') => fmt_vals l' s'
+      | (RExc c x, s') => (FmExc c x, s')
+      | (RUnmodelled, s') => (FmUnmodelled, s')
+      end
+    end.
+
+  Definition fmt_item (i : fitem) (en : env) (s : st Sigma) : fres * st Sigma :=
+    match i with
+    | FOwn => (FmOk, s)
+    | FName c => if c_named (cx_callee cx c) then (FmOk, s) else (FmExc AttributeErrorC (XFresh 7), s)
+    | FVal e => match eval_expr e en with
+                | Some v => fmt_vals [v] s
+                | None => (FmExc UnboundLocalErrorC (XFresh 3), s)
+                end
+    | FArgs => fmt_vals A s
+    | FKwargs => fmt_vals (map snd K) s
+    end.
+
+  Fixpoint fmt_items (l : list fitem) (en : env) (s : st Sigma) : fres * st Sigma :=
+    match l with
+    | [] => (FmOk, s)
+    | i :: l' => match fmt_item i en s with
+                 | (FmOk, s') => fmt_items l' en s'
+                 | other => other
+                 end
+    end.
+
+  (* the message is built first; the statement only happens when that succeeded *)
+  Definition after_fmt (l : list fitem) (en : env) (s : st Sigma) (k : st Sigma -> flow * st Sigma) : flow * st Sigma :=
+    match fmt_items l en s with
+    | (FmOk, s') => k s'
+    | (FmExc c x, s') => (FExc c x en, s')
+    | (FmUnmodelled, s') => (FUnmodelled, s')
+    end.
+
   Fixpoint exec (p : wstmt) (cur : option (exn * xid)) (en : env) (s : st Sigma) : flow * st Sigma :=
     match p with
     | WSkip => (FNext en, s)
@@ -277,17 +329,18 @@ Section Exec.
       | (FNext en', s') => exec b cur en' s'
       | other => other
       end
-    | WPrint => (FNext en, set_ws s (log_ev EvPrint (ws s)))
+    | WPrint fmt => after_fmt fmt en s (fun s => (FNext en, set_ws s (log_ev EvPrint (ws s))))
     | WCount k =>
       let w := ws s in
       let n := (cnt_get (cx_self cx) (ws_cnt w) + k)%Z in
       (FNext en, set_ws s {| ws_log := ws_log w ++ [EvCount n]; ws_cnt := cnt_set (cx_self cx) n (ws_cnt w);
                              ws_filter := ws_filter w; ws_warned := ws_warned w |})
-    | WWarn cat =>
-      match run_fops cat (cx_warn_prog cx) (ws s) with
-      | (None, w') => (FNext en, set_ws s w')
-      | (Some cls, w') => (FExc cls (XFresh 2) en, set_ws s w')
-      end
+    | WWarn cat fmt =>
+      after_fmt fmt en s (fun s =>
+        match run_fops cat (cx_warn_prog cx) (ws s) with
+        | (None, w') => (FNext en, set_ws s w')
+        | (Some cls, w') => (FExc cls (XFresh 2) en, set_ws s w')
+        end)
     | WPure x => (FNext (upd en x (LVal VOpaque)), s)
     | WAssign x e =>
       match eval_expr e en with
@@ -305,6 +358,8 @@ Section Exec.
       | None => (FExc UnboundLocalErrorC (XFresh 3) en, s)
       end
     | WAssertKw a k =>
+      if negb (c_named (cx_callee cx CFunc)) then (FExc AttributeErrorC (XFresh 7) en, s)   (* DecoratedFunction(func): full_name of a partial / callable object *)
+      else
       match the_kwargs k en with
       | Some kw => match cx_assert_kw cx (the_args a) kw with
                    | Some cls => (FExc cls (XFresh 1) en, s)
@@ -318,7 +373,7 @@ Section Exec.
       | Some false => exec el cur en s
       | None => (FExc UnboundLocalErrorC (XFresh 3) en, s)
       end
-    | WRaise cls => (FExc cls (XFresh 4) en, s)
+    | WRaise cls fmt => after_fmt fmt en s (fun s => (FExc cls (XFresh 4) en, s))
     | WReraise =>
       match cur with
       | Some (c, x) => (FExc c x en, s)
@@ -363,7 +418,8 @@ Arguments c_iscoro {Sigma} _.
 Arguments c_mode {Sigma} _.
 Arguments c_call {Sigma} _.
 Arguments c_resume {Sigma} _.
-Arguments Build_cdesc {Sigma} _ _ _ _.
+Arguments c_named {Sigma} _.
+Arguments Build_cdesc {Sigma} _ _ _ _ _.
 Arguments cx_callee {Sigma} _.
 Arguments cx_param {Sigma} _.
 Arguments cx_rename {Sigma} _.
@@ -372,7 +428,12 @@ Arguments cx_vne {Sigma} _.
 Arguments cx_assert_kw {Sigma} _.
 Arguments cx_warn_prog {Sigma} _.
 Arguments cx_self {Sigma} _.
-Arguments Build_ctx {Sigma} _ _ _ _ _ _ _ _.
+Arguments cx_repr {Sigma} _.
+Arguments Build_ctx {Sigma} _ _ _ _ _ _ _ _ _.
+Arguments fmt_vals {Sigma} _ _ _.
+Arguments fmt_item {Sigma} _ _ _ _ _ _.
+Arguments fmt_items {Sigma} _ _ _ _ _ _.
+Arguments after_fmt {Sigma} _ _ _ _ _ _ _.
 Arguments exec {Sigma} _ _ _ _ _ _ _.
 Arguments run_body {Sigma} _ _ _ _ _.
 Arguments do_call {Sigma} _ _ _ _ _ _.
@@ -404,12 +465,13 @@ Inductive pre_result := PreContinue | PreIdentity | PreRaise (cls : exn).
 Fixpoint eval_dcond (c : dcond) (dir_of : string -> bool) : bool :=
   match c with DNameInDir who => dir_of who | DNot c' => negb (eval_dcond c' dir_of) end.
 
-Fixpoint run_pre (l : list dstmt) (enabled : bool) (dir_of : string -> bool) : pre_result :=
+Fixpoint run_pre (l : list dstmt) (enabled : bool) (named : bool) (dir_of : string -> bool) : pre_result :=
   match l with
   | [] => PreContinue
-  | DGuardEnabled :: l' => if enabled then run_pre l' enabled dir_of else PreIdentity
-  | DIfRaise c cls :: l' => if eval_dcond c dir_of then PreRaise cls else run_pre l' enabled dir_of
-  | DOpaque :: l' => run_pre l' enabled dir_of
+  | DGuardEnabled :: l' => if enabled then run_pre l' enabled named dir_of else PreIdentity
+  | DIfRaise c cls :: l' => if eval_dcond c dir_of then PreRaise cls else run_pre l' enabled named dir_of
+  | DOpaque :: l' => run_pre l' enabled named dir_of
+  | DReadName :: l' => if named then run_pre l' enabled named dir_of else PreRaise AttributeErrorC
   end.
 
 (* the arguments remembered by a coroutine object of the decorated function's side *)
@@ -438,7 +500,7 @@ Section Use.
     else (r, s1).
 
   Definition unmodelled_callee (mode : bool) : cdesc Sigma :=
-    {| c_iscoro := false; c_mode := mode; c_call := fun _ _ s => (RUnmodelled, s); c_resume := fun _ _ s => (RUnmodelled, s) |}.
+    {| c_named := true; c_iscoro := false; c_mode := mode; c_call := fun _ _ s => (RUnmodelled, s); c_resume := fun _ _ s => (RUnmodelled, s) |}.
 
   (* what the decorator hands back for the function in cx *)
   Definition as_callee (d : deco) (cx : ctx Sigma) : cdesc Sigma :=
@@ -447,11 +509,11 @@ Section Use.
     | ChFunc => f
     | ChVariant v =>
       if w_async v then
-        {| c_iscoro := true; c_mode := c_mode f;
+        {| c_named := true; c_iscoro := true; c_mode := c_mode f;
            c_call := fun a k s => (ROk (VWrapperCoro a k), s);
            c_resume := fun a k s => run_body cx a k (w_body v) s |}
       else
-        {| c_iscoro := false; c_mode := c_mode f;
+        {| c_named := true; c_iscoro := false; c_mode := c_mode f;
            c_call := fun a k s => run_body cx a k (w_body v) s;
            c_resume := c_resume f |}
     | ChBroken => unmodelled_callee (c_mode f)
@@ -462,7 +524,7 @@ Section Use.
   Definition with_callee (cx : ctx Sigma) (f : cdesc Sigma) : ctx Sigma :=
     {| cx_callee := fun c => match c with CFunc => f | COther => cx_callee cx COther end;
        cx_param := cx_param cx; cx_rename := cx_rename cx; cx_veq := cx_veq cx; cx_vne := cx_vne cx;
-       cx_assert_kw := cx_assert_kw cx; cx_warn_prog := cx_warn_prog cx; cx_self := cx_self cx |}.
+       cx_assert_kw := cx_assert_kw cx; cx_warn_prog := cx_warn_prog cx; cx_self := cx_self cx; cx_repr := cx_repr cx |}.
 
   (* d1 applied to (d2 applied to f) *)
   Definition use_stacked (d1 : deco) (cx1 : ctx Sigma) (d2 : deco) (cx2 : ctx Sigma) : csem Sigma :=
@@ -513,11 +575,11 @@ Definition run_beh (b : beh) (accepts : callee -> args -> kwargs -> bool) (c : c
 (* a plain `def` (iscoro = false) or a plain `async def` (iscoro = true) with that behaviour *)
 Definition beh_callee (b : beh) (accepts : callee -> args -> kwargs -> bool) (c : callee) (iscoro : bool) : cdesc jst :=
   if iscoro then
-    {| c_iscoro := true; c_mode := true;
+    {| c_named := true; c_iscoro := true; c_mode := true;
        c_call := fun a k s => if accepts c a k then (ROk (VPending c a k), s) else (RExc TypeErrorC (XFresh 6), s);
        c_resume := run_beh b accepts c |}
   else
-    {| c_iscoro := false; c_mode := false; c_call := run_beh b accepts c;
+    {| c_named := true; c_iscoro := false; c_mode := false; c_call := run_beh b accepts c;
        c_resume := fun _ _ s => (RExc TypeErrorC (XFresh 0), s) |}.
 
 (* ---- classes: for_all_methods ---------------------------------------------------------- *)
